@@ -1,6 +1,7 @@
 package engine
 
 import (
+	"bytes"
 	"encoding/json"
 	"io"
 	"strings"
@@ -175,6 +176,18 @@ func (s *socket) onOpen() {
 	)
 
 	if i := s.server.Opts().InitialPacket(); i != nil {
+		// encoding a packet consumes its reader: give every session its own copy
+		// of the configured initial packet, otherwise only the first one gets it.
+		switch v := i.(type) {
+		case types.BufferInterface:
+			i = v.Clone()
+		case *strings.Reader:
+			c := *v
+			i = &c
+		case *bytes.Reader:
+			c := *v
+			i = &c
+		}
 		s.sendPacket(packet.MESSAGE, i, nil, nil)
 	}
 
